@@ -5683,7 +5683,7 @@ inline int CLUFactorRational::vSolveRight4update2(Rational* vec,
          assert(k >= 0 && k < thedim);
          x = rhs2[k];
 
-         if(x == 0)
+         if(x != 0)
          {
             /*              maxabs = (maxabs < -x) ? -x : maxabs;  */
             enQueueMaxRat(ridx2, &j, rperm[k]);
@@ -5798,7 +5798,7 @@ inline int CLUFactorRational::vSolveRight4update3(Rational* vec,
          assert(k >= 0 && k < thedim);
          x = rhs2[k];
 
-         if(x == 0)
+         if(x != 0)
          {
             enQueueMaxRat(ridx2, &j, rperm[k]);
          }
@@ -5827,7 +5827,7 @@ inline int CLUFactorRational::vSolveRight4update3(Rational* vec,
          assert(k >= 0 && k < thedim);
          x = rhs3[k];
 
-         if(x == 0)
+         if(x != 0)
          {
             enQueueMaxRat(ridx3, &j, rperm[k]);
          }
@@ -5880,7 +5880,7 @@ inline void CLUFactorRational::vSolveRightNoNZ(Rational*
          assert(k >= 0 && k < thedim);
          x = rhs2[k];
 
-         if(x == 0)
+         if(x != 0)
          {
             /*              maxabs = (maxabs < -x) ? -x : maxabs;  */
             enQueueMaxRat(ridx2, &j, rperm[k]);
